@@ -217,14 +217,16 @@ def tree_tv(n):
 
 
 def routes_case(ty, tree, kind, rng, v=None):
-    doc = G.render_doc(rng, tree) if tree[0] == "t" else ""
+    doc, doc_tree = G.render_doc_with_order(rng, tree) if tree[0] == "t" else ("", ("t", []))
     val = G.render_inline(rng, tree)
     meta = {"kind": kind, "ty": ty, "depth": G.ty_depth(ty), "has_dt": tree_has_datetime(tree), "root_table": tree[0] == "t"}
     if v is not None:
         meta["v"] = v
-    # fourth argument: the tree both texts were rendered from — ignored by the harness (which reads the texts),
-    # read by the Coq model (which works on the level of the value tree)
-    return Case("routes", [G.ty_str(ty).encode(), doc.encode("utf-8"), val.encode("utf-8"), G.tv_str(tree_tv(tree)).encode()], meta)
+    # fourth / fifth argument: the trees the two texts denote, entries in the order a parser meets them (the
+    # document moves sub-tables behind values) — ignored by the harness (which reads the texts), read by the Coq
+    # model (which works on the level of the value tree)
+    return Case("routes", [G.ty_str(ty).encode(), doc.encode("utf-8"), val.encode("utf-8"),
+                           G.tv_str(tree_tv(doc_tree)).encode(), G.tv_str(tree_tv(tree)).encode()], meta)
 
 
 def vcase(cmd, ty, v, kind):
@@ -237,6 +239,9 @@ VLEAF_TY = ("S", "S", [("v", ("v",))])
 VLEAF_VAL = ("R", [("V", ("X", "1979-05-27"))])
 S3_TY = ("S", "V", [("v", ("O", ("L", ("O", ("int", "i32")))))])
 S3_VAL = ("R", [("O", ("L", [("O", ("I", 1)), ("N",)]))])
+# enum E { T(i32, i32) }, E::T(1, 2): toml::ser::ValueSerializer writes `[1, 2]` (known class C13-valueser-root-tuple-variant)
+TV_TY = ("E", "E", [("T", "t", [("int", "i32"), ("int", "i32")])])
+TV_VAL = ("E", 0, ("L", [("I", 1), ("I", 2)]))
 
 
 def fixed_cases(rng):
@@ -246,6 +251,7 @@ def fixed_cases(rng):
     out.append(vcase("routes_ser", VLEAF_TY, VLEAF_VAL, "S2-witness"))
     out.append(vcase("tryfrom", VLEAF_TY, VLEAF_VAL, "S1-witness"))
     out.append(vcase("tryfrom", S3_TY, S3_VAL, "S3-witness"))
+    out.append(vcase("routes_ser", TV_TY, TV_VAL, "S4-witness"))
     # F14: a table whose first key is the private field name
     f14 = ("S", "S", [("t", ("v",))])
     out.append(Case("routes", [G.ty_str(f14).encode(), b"[t]\n\"$__toml_private_datetime\" = \"1979-05-27\"\n", b""],
